@@ -106,4 +106,5 @@ fn c08_poll_count() {
     poll_after(2, 0);
     poll_after(3, 1);
     poll_after(4, 4);
+    kani::cover!(true, "the end of the harness is reached past every obligation");
 }
